@@ -21,6 +21,7 @@ const (
 	vfDrop      = 4 // processed, answer discarded, connection stays up (C18)
 	vfRefuse    = 5 // CONNECT only: CONNACK with a refusal code, then close
 	vfSilent    = 6 // CONNECT only: no CONNACK at all
+	vfGarbage   = 7 // processed, but the answer is a malformed packet (protocol error)
 )
 
 type vbAttempt struct {
@@ -79,6 +80,9 @@ type vbroker struct {
 	events     bool
 	silentAll  bool // broker stops answering PINGREQ (C13)
 	noCuts     bool // only the "drop" fault is offered
+	allowGarbage bool
+	dialTimes  []int64
+	dialOK     []bool
 	stamp      bool // record virtual times
 }
 
@@ -124,8 +128,12 @@ func (b *vbroker) DialContext(ctx context.Context) (*BaseClient, error) {
 	for _, c := range b.conns {
 		verifAssert(c.closed, "C09.one_live_transport")
 	}
+	if b.stamp {
+		b.dialTimes = append(b.dialTimes, verifNow())
+	}
 	if b.allowDialErr && b.budget > 0 && verifChoice("dialfault", 2) == 1 {
 		b.budget--
+		b.dialOK = append(b.dialOK, false)
 		b.ev("dial=err")
 		verifUnlock()
 		return nil, errVbDial
@@ -134,6 +142,7 @@ func (b *vbroker) DialContext(ctx context.Context) (*BaseClient, error) {
 	c.id = n
 	c.hook = b
 	b.conns = append(b.conns, c)
+	b.dialOK = append(b.dialOK, true)
 	b.accepted = append(b.accepted, false)
 	b.ev("dial(c" + itoa(n) + ")")
 	verifUnlock()
@@ -207,6 +216,9 @@ func (b *vbroker) attempt(c *vconn, raw []byte, alreadyClosed bool) error {
 		if b.allowConnect && p.typ == 1 {
 			kinds = append(kinds, vfRefuse, vfSilent)
 		}
+		if b.allowGarbage {
+			kinds = append(kinds, vfGarbage)
+		}
 		if p.typ == 14 {
 			kinds = []int{vfNone}
 		}
@@ -249,6 +261,9 @@ func (b *vbroker) attempt(c *vconn, raw []byte, alreadyClosed bool) error {
 	case vfSilent:
 		a.outcome = 'd'
 		b.ev(name + "!silent")
+	case vfGarbage:
+		a.outcome = 'a'
+		b.ev(name + "!garbage")
 	default:
 		a.outcome = 'o'
 		b.ev(name)
@@ -259,6 +274,10 @@ func (b *vbroker) attempt(c *vconn, raw []byte, alreadyClosed bool) error {
 		c.eof = true
 		c.signalLocked = true
 	case vfDrop, vfSilent:
+	case vfGarbage:
+		c.rbuf = append(c.rbuf, 0xF0, 0x00)
+		c.nInjected += 2
+		c.signalLocked = true
 	default:
 		if answer != nil {
 			c.rbuf = append(c.rbuf, answer...)
